@@ -227,12 +227,12 @@ def jsonParseStr (s : Str) : Option Str :=
     else none
   | [] => none
 
-def isWs (c : Char) : Bool := c = ' ' || c = '\n' || c = '\r' || c = '\t'
+def jsonIsWs (c : Char) : Bool := c = ' ' || c = '\n' || c = '\r' || c = '\t'
 
 /-- `WHITESPACE.match(s, end).end()` -/
 def skipWs : Str → Str
   | [] => []
-  | c :: r => if isWs c then skipWs r else c :: r
+  | c :: r => if jsonIsWs c then skipWs r else c :: r
 
 mutual
   /-- `scan_once`: a value and the rest of the text -/
@@ -447,7 +447,7 @@ def srcOfJson : Option Json → Except Err DepSource
 def kRel : Str := ['r', 'e', 'l']
 
 /-- `for s in self.stylesheet: if "rel" not in s: s["rel"] = "stylesheet"` -/
-def addRel (d : List (Str × Str)) : List (Str × Str) :=
+def jsonAddRel (d : List (Str × Str)) : List (Str × Str) :=
   if d.any (fun kv => kv.1 == kRel) then d else d ++ [(kRel, kStylesheet)]
 
 def depKeys : List Str := [kName, kVersion, kSource, kScript, kStylesheet, kAllFiles, kMeta, kHead]
@@ -478,7 +478,7 @@ def depOfJson : Json → Except Err SDep
           | some _ => .error .typeError
         match allFiles, head with
         | .ok allFiles, .ok head =>
-          .ok { info := { name, version, vrank := 0, source, script, stylesheet := stylesheet.map addRel, metas, allFiles }, head }
+          .ok { info := { name, version, vrank := 0, source, script, stylesheet := stylesheet.map jsonAddRel, metas, allFiles }, head }
         | .error e, _ => .error e
         | _, .error e => .error e
       | .error e, _, _, _ => .error e
